@@ -860,6 +860,11 @@ static void cascade_run(uint64_t idx, vh_rng_t * rng) {
         vh_eval(1);
         a_quesc = SCPI_RegGet(c, SCPI_REG_QUESC); a_operc = SCPI_RegGet(c, SCPI_REG_OPERC); a_voltc = SCPI_RegGet(c, USER_REG_QUES_VOLTC);
         stb = SCPI_RegGet(c, SCPI_REG_STB); sre = SCPI_RegGet(c, SCPI_REG_SRE); (void) sre; (void) a_quesc; (void) a_operc; (void) a_voltc; (void) b_stb; (void) b_voltc; (void) b_quesc; (void) b_operc;
+        /* a user group is summarised in its parent register exactly as a standard group is summarised in the status byte (the hop that
+         * carries a user event towards the status byte, MSS and the service request) */
+        if (((a_quesc & 0x0001) != 0) != ((SCPI_RegGet(c, USER_REG_QUES_VOLT) & SCPI_RegGet(c, USER_REG_QUES_VOLTE)) != 0)) { vh_violation(PROP ":cascade-user-group-summary", "after %s: QUES:COND=0x%04x but QUES:VOLT=0x%04x QUES:VOLT:ENAB=0x%04x (summary bit 0x0001)", vh_buf_cstr(&hist), a_quesc, SCPI_RegGet(c, USER_REG_QUES_VOLT), SCPI_RegGet(c, USER_REG_QUES_VOLTE)); break; }
+        if (((a_operc & 0x0200) != 0) != ((SCPI_RegGet(c, USER_REG_OPER_SUB) & SCPI_RegGet(c, USER_REG_OPER_SUBE)) != 0)) { vh_violation(PROP ":cascade-user-group-summary", "after %s: OPER:COND=0x%04x but OPER:SUB=0x%04x OPER:SUB:ENAB=0x%04x (summary bit 0x0200)", vh_buf_cstr(&hist), a_operc, SCPI_RegGet(c, USER_REG_OPER_SUB), SCPI_RegGet(c, USER_REG_OPER_SUBE)); break; }
+        if (a_operc & 0x0200) vh_count("cascade.user_group_summarised_in_a_parent_bit_above_7", 1);
 #if MON11
         if (((stb & 0x08) != 0) != ((SCPI_RegGet(c, SCPI_REG_QUES) & SCPI_RegGet(c, SCPI_REG_QUESE)) != 0)) { vh_violation(PROP ":cascade-summary-bit3", "after %s: STB=0x%02x QUES=0x%04x QUESE=0x%04x", vh_buf_cstr(&hist), stb, SCPI_RegGet(c, SCPI_REG_QUES), SCPI_RegGet(c, SCPI_REG_QUESE)); break; }
         if (((stb & 0x80) != 0) != ((SCPI_RegGet(c, SCPI_REG_OPER) & SCPI_RegGet(c, SCPI_REG_OPERE)) != 0)) { vh_violation(PROP ":cascade-summary-bit7", "after %s: STB=0x%02x OPER=0x%04x OPERE=0x%04x", vh_buf_cstr(&hist), stb, SCPI_RegGet(c, SCPI_REG_OPER), SCPI_RegGet(c, SCPI_REG_OPERE)); break; }
@@ -910,7 +915,7 @@ int main(int argc, char ** argv) {
     vh_require("c12.srq.operations_with_mss_clear_before_and_after");
 #endif
     #if USE_CUSTOM_REGISTERS
-    vh_require("cascade.steps");
+    vh_require("cascade.steps"); vh_require("cascade.user_group_summarised_in_a_parent_bit_above_7");
 #endif
     return vh_main(argc, argv, PROP, phases, 4);
 }
